@@ -370,6 +370,8 @@ def gen_scenario(rng, spec, m, nonlinear: bool):
         lagged = sorted(set((nm, sh) for e in spec["eqs"] for (nm, sh) in compile_equation(e)[1] if sh < 0 and nm in spec["tvars"]))
         if lagged:
             missing["init"] = list(r2.choice(lagged))
+    if spec.get("log_obs"):      # a log-flagged measurement variable is given input data in every period (that is what is being watched)
+        missing.pop("obs", None); missing.pop("init", None)
     return dict(freq=freq, start=start, n=n, unant=unant, ant=ant, init=init, exo=exo,
                 term_data=rng.chance(0.5), missing=missing)
 
@@ -1430,7 +1432,8 @@ def lean_lines_for_case(ctx: Ctx, spec, sc, rng, want_resid=True):
                 ok_data = not np.isnan(data[endo][:, :f.first]).any()
                 # no certificate for models with exogenous variables: the first-order solution ignores them (see the finding in notes/C06.md),
                 # so the hypothesis of `firstOrder_is_unique_zero` is not met there; the exact solve below still has to agree
-                if ok_data and not spec["exo"]:
+                # (nor for programs with a lagged shock: the first-order side is off there, see the candidate finding in notes/C06.md)
+                if ok_data and not spec["exo"] and not spec.get("lagged_shock"):
                     items.append(("cert", f"cert {sysT} {data_text(np.nan_to_num(data, nan=1 / 9))} {len(gs)} " + " ".join(qmat_text(g.reshape(-1, 1)) for g in gs),
                                   path, dict(frame=k)))
                 if ok_data:
